@@ -14,6 +14,7 @@ import (
 	"unicode"
 
 	"github.com/matryer/moq/pkg/moq"
+	"golang.org/x/tools/go/packages"
 )
 
 // RunOut is what one real moq library call produced.
@@ -33,6 +34,34 @@ type Result struct {
 	Checks  map[string]string `json:"checks,omitempty"` // oracle name -> "" (ok) or diagnostic
 }
 
+// Fast mode (fast.go, build tag verif, needs the overlay hooks): set per request.
+var (
+	fastOn          bool
+	fastSetupFn     func(root, mod, baseDir string)
+	fastLoadDirFn   func(dir string) *srcInfo
+	fastLoadSrcFn   func(dir string) (*packages.Package, error)
+	fastProbeFn     func(dir string) (string, bool)
+	fastNewMockerFn func(job JobCfg, cfg moq.Config) (*moq.Mocker, error)
+	fastRealFindFn  func(pkgFlag, srcPath string) string
+	fastFindFn      func(pkgFlag, srcPath string) string
+)
+
+// newMocker is moq.New, or - in fast mode - the overlay hook over an in-memory load.
+func newMocker(job JobCfg, formatter string) (*moq.Mocker, error) {
+	cfg := moq.Config{
+		SrcDir:     job.Dir,
+		PkgName:    job.PkgName,
+		Formatter:  formatter,
+		StubImpl:   job.StubImpl,
+		SkipEnsure: job.SkipEnsure,
+		WithResets: job.WithResets,
+	}
+	if fastOn {
+		return fastNewMockerFn(job, cfg)
+	}
+	return moq.New(cfg)
+}
+
 // runMoq calls the real library exactly as main.run does.
 func runMoq(job JobCfg, formatter string) (res RunOut) {
 	defer func() {
@@ -40,14 +69,7 @@ func runMoq(job JobCfg, formatter string) (res RunOut) {
 			res.Panic = fmt.Sprintf("%v\n%s", r, debug.Stack())
 		}
 	}()
-	m, err := moq.New(moq.Config{
-		SrcDir:     job.Dir,
-		PkgName:    job.PkgName,
-		Formatter:  formatter,
-		StubImpl:   job.StubImpl,
-		SkipEnsure: job.SkipEnsure,
-		WithResets: job.WithResets,
-	})
+	m, err := newMocker(job, formatter)
 	if err != nil {
 		return RunOut{Err: err.Error(), Stage: "new"}
 	}
@@ -61,7 +83,13 @@ func runMoq(job JobCfg, formatter string) (res RunOut) {
 func doJob(job JobCfg, fmts []string, facts, oracle bool) Result {
 	res := Result{ID: job.ID, Runs: map[string]RunOut{}, Checks: map[string]string{}}
 	if facts {
-		src, err := loadSrc(job.Dir)
+		var src *packages.Package
+		var err error
+		if fastOn {
+			src, err = fastLoadSrcFn(job.Dir)
+		} else {
+			src, err = loadSrc(job.Dir)
+		}
 		if err != nil {
 			res.LoadErr = err.Error()
 		} else {
@@ -118,8 +146,7 @@ func checkWriter(job JobCfg, res *Result) {
 				panicked = true
 			}
 		}()
-		m, e := moq.New(moq.Config{SrcDir: job.Dir, PkgName: job.PkgName, StubImpl: job.StubImpl,
-			SkipEnsure: job.SkipEnsure, WithResets: job.WithResets})
+		m, e := newMocker(job, "")
 		if e != nil {
 			return e, false
 		}
@@ -181,11 +208,32 @@ func workerMain() {
 			Oracle bool    `json:"oracle"`
 			Reps   int     `json:"reps"`
 			Outside string  `json:"outside"`
+			Fast    *struct {
+				Root, Mod, Base string
+				CheckFind       bool
+			} `json:"fast"`
 		}
 		if err := dec.Decode(&req); err != nil {
 			return
 		}
+		fastOn = false
+		if req.Fast != nil {
+			if fastSetupFn == nil {
+				enc.Encode(Result{ID: req.Job.ID, LoadErr: "fast mode not built in"})
+				out.Flush()
+				continue
+			}
+			fastSetupFn(req.Fast.Root, req.Fast.Mod, req.Fast.Base)
+			fastOn = true
+		}
 		res := doJob(req.Job, req.Fmts, req.Facts, req.Oracle)
+		if fastOn && req.Fast.CheckFind && req.Job.PkgName != "" {
+			if si := fastLoadDirFn(req.Job.Dir); si.err == nil {
+				if a, b := fastFindFn(req.Job.PkgName, si.pkgPath), fastRealFindFn(req.Job.PkgName, si.pkgPath); a != b {
+					res.Checks["fast-findpkg"] = fmt.Sprintf("findPkgPath(%q, %q): harness mirror %q, real %q", req.Job.PkgName, si.pkgPath, a, b)
+				}
+			}
+		}
 		checkRepeat(req.Job, req.Reps, &res)
 		if req.Outside != "" {
 			checkOutside(req.Job, req.Outside, &res)
